@@ -544,6 +544,14 @@ pub fn c15_histories() -> Vec<History> {
         ),
         // one entry per table file and per block; every lookup passes the filter
         mk("one-entry-tables", "T1p", vec![Batch(vec![(0, true), (1, true), (2, true)]), Flush, Put(0, 0), Del(1), Flush, Compact(None, None), Put(1, 0), Flush, Put(2, 0)]),
+        // 4500-byte keys: the manifest grows past a 32 KiB block, one of its records is split into
+        // fragments (damage inside a Middle / Last fragment)
+        History {
+            name: "long-keys-fragmented-manifest".to_string(),
+            cfgs: cfgs(&["T300"]),
+            keys: vec![vec![b'c'; 4500], vec![b'e'; 4500], vec![b'f'; 4500]],
+            ops: vec![Put(0, 0), Flush, Put(1, 0), Flush, Put(2, 0), Flush, Put(0, 0), Flush, Put(1, 0), Flush, Put(2, 0), Flush, Del(0)],
+        },
         // tombstones above older values on deeper levels, rotation left an unflushed WAL
         mk("tombstones+rotation", "M2n", vec![Put(0, 0), Put(1, 0), Put(2, 0), Del(0), Del(1), Put(0, 0), Del(2), Put(1, 0), Reopen(0), Del(0), Put(2, 0)]),
     ]
